@@ -562,7 +562,27 @@ func (c *genCtx) trap(depth int, nn bool) *Expr {
 	if c.nu > 1 && c.draw(0, 7, "selfnest") == 0 {
 		kind = 10
 	}
+	if c.draw(0, 9, "plusfirst") == 0 {
+		kind = 11
+	}
 	switch kind {
+	case 11:
+		// a + group whose first iteration fails after its first term, first thing inside an optional / repeated
+		// group (or bare), followed by a tail that takes the same tokens: ( ( @a b )+ )? @a*
+		a, b := c.leaf(), c.leaf()
+		var e *Expr = Group("+", Seq(Cap(a), b))
+		e.Style = c.draw(0, 5, "gstyle")
+		switch c.draw(0, 2, "pluswrap") {
+		case 0:
+			e = Group("?", e)
+		case 1:
+			e = Group("*", Seq(e, Group("?", Lit(";"))))
+		}
+		tail := Group("*", Cap(clone(a)))
+		if nn {
+			tail = Group("+", Cap(clone(a)))
+		}
+		return Seq(e, tail)
 	case 10:
 		// a nested node of the enclosing production's own type completes inside an alternative that is then
 		// abandoned: ( @a "(" @@U ")" | @a "(" @@U "]" | @b ) with the production itself a member of U
